@@ -209,7 +209,7 @@ func (f *flow) symbolicAccount(i int, pid string) *acct {
 	var cs []string
 	for k := 0; k < nOTP; k++ {
 		p := verif.String("rcode"+n+"_"+idx(k), 3)
-		verif.Assume(p != "")
+		verif.Assume(verif.And(p != "", !strings.Contains(p, ","))) // generated codes are non-empty and comma-free
 		a.codes = append(a.codes, p)
 		cs = append(cs, stubs.BcMake(p, "bcsalt"+n+idx(k)))
 	}
@@ -283,6 +283,8 @@ func (f *flow) symbolicSession() {
 	verif.Assume(verif.Implies(S.Has(authboss.SessionHalfAuthKey), hasUID))                                      // A2
 	verif.Assume(verif.Implies(S.Has(authboss.SessionOAuth2State), f.sval(authboss.SessionOAuth2State) != ""))   // A2
 	verif.Assume(verif.Implies(S.Has(authboss.Session2FAAuthToken), f.sval(authboss.Session2FAAuthToken) != "")) // A7
+	verif.Assume(verif.Implies(S.Has(sms2fa.SessionSMSNumber), f.sval(sms2fa.SessionSMSNumber) != ""))   // A2: only PostSetup writes it, never empty
+	verif.Assume(verif.Implies(S.Has(totp2fa.SessionTOTPSecret), f.sval(totp2fa.SessionTOTPSecret) != "")) // A2: a generated key
 	// A6: a present sms_secret was texted to some number (ghost)
 	f.smsSentTo = verif.String("ghost_smsSentTo", 5)
 	// cookie jar: remember cookie arbitrary
